@@ -69,12 +69,18 @@ func Pack(t *lex.Tables) (*Scanner, error) {
 
 	symBytes := make([][]uint8, t.NumSymbols)
 	var e int
-	for i := uint8(0); i < 128; i++ {
+	// In byte mode the symbol map describes all 256 byte values, otherwise only the ASCII part is
+	// mapped individually and bytes of multi-byte runes share the last ("everything else") symbol.
+	limit := 128
+	if t.ScanBytes {
+		limit = 256
+	}
+	for i := 0; i < limit; i++ {
 		if e+1 < len(t.SymbolMap) && t.SymbolMap[e+1].Start == rune(i) {
 			e++
 		}
 		target := t.SymbolMap[e].Target
-		symBytes[target] = append(symBytes[target], i)
+		symBytes[target] = append(symBytes[target], uint8(i))
 	}
 	uniSym := t.SymbolMap[len(t.SymbolMap)-1].Target
 
@@ -101,7 +107,7 @@ func Pack(t *lex.Tables) (*Scanner, error) {
 				}
 				ret.onEoi[state] = uint8(target) / 2
 			}
-			if sym != int(uniSym) {
+			if sym != int(uniSym) || t.ScanBytes {
 				continue
 			}
 			// Note: here we consume unicode runes byte by byte.
